@@ -20,6 +20,13 @@ def _add(c):
     return c
 
 
+def concretize(v, lo, hi):
+    for k in range(lo, hi + 1):
+        if v == k:
+            return k
+    raise AssertionError('out of range')
+
+
 # ---------------------------------------------------------------- windows
 
 def ref_windows(n, size, step, window_sized, label_shift, start_shift, size_increment):
@@ -52,41 +59,51 @@ def ref_windows(n, size, step, window_sized, label_shift, start_shift, size_incr
 
 
 def mk_window(n, size, step, kind='series', tier='quick'):
+    R = 3 if tier == 'quick' else 4
     def body(env, window_sized, label_shift, start_shift, size_increment):
         sf = env.sf
         from vf import rt
-        vals = [10 + i for i in range(n)]
-        labels = [100 + i for i in range(n)]
-        if kind == 'series':
-            src = rt.concrete(('C13s', env.model, n), lambda: sf.Series(env.array(vals, 'int64'), index=labels))
-            it = src.iter_window_items(size=size, step=step, window_sized=window_sized, label_shift=label_shift,
-                    start_shift=start_shift, size_increment=size_increment)
-            got = [[env.obs(l), env.obs(list(w.index.values)), env.obs(w.values.tolist())] for l, w in it]
-            exp = [[labels[li], [labels[i] for i in pos], [vals[i] for i in pos]]
-                   for li, pos in ref_windows(n, size, step, window_sized, label_shift, start_shift, size_increment)]
-        else:
-            axis = 0 if kind == 'frame0' else 1
-            src = rt.concrete(('C13f', env.model, n, axis), lambda: (
-                sf.Frame.from_items((('a', env.array(vals, 'int64')), ('b', env.array([v + 1000 for v in vals], 'int64'))), index=labels)
-                if axis == 0 else
-                sf.Frame.from_items(((labels[i], env.array([vals[i], vals[i] + 1000], 'int64')) for i in range(n)), index=('r0', 'r1'))))
-            it = src.iter_window_items(size=size, step=step, axis=axis, window_sized=window_sized, label_shift=label_shift,
-                    start_shift=start_shift, size_increment=size_increment)
-            if axis == 0:
+        # window parameters are loop bounds and strides: split them by value once, up front
+        label_shift = concretize(label_shift, -R, R)
+        start_shift = concretize(start_shift, -R, R)
+        size_increment = concretize(size_increment, 0, 1)
+        window_sized = bool(window_sized)
+        def run():
+            vals = [10 + i for i in range(n)]
+            labels = [100 + i for i in range(n)]
+            if kind == 'series':
+                src = rt.concrete(('C13s', env.model, n), lambda: sf.Series(env.array(vals, 'int64'), index=labels))
+                it = src.iter_window_items(size=size, step=step, window_sized=window_sized, label_shift=label_shift,
+                        start_shift=start_shift, size_increment=size_increment)
                 got = [[env.obs(l), env.obs(list(w.index.values)), env.obs(w.values.tolist())] for l, w in it]
-                exp = [[labels[li], [labels[i] for i in pos], [[vals[i], vals[i] + 1000] for i in pos]]
+                exp = [[labels[li], [labels[i] for i in pos], [vals[i] for i in pos]]
                        for li, pos in ref_windows(n, size, step, window_sized, label_shift, start_shift, size_increment)]
             else:
-                got = [[env.obs(l), env.obs(list(w.columns.values)), env.obs(w.values.tolist())] for l, w in it]
-                exp = [[labels[li], [labels[i] for i in pos], ([[vals[i] for i in pos], [vals[i] + 1000 for i in pos]] if pos else [[], []])]
-                       for li, pos in ref_windows(n, size, step, window_sized, label_shift, start_shift, size_increment)]
+                axis = 0 if kind == 'frame0' else 1
+                src = rt.concrete(('C13f', env.model, n, axis), lambda: (
+                    sf.Frame.from_items((('a', env.array(vals, 'int64')), ('b', env.array([v + 1000 for v in vals], 'int64'))), index=labels)
+                    if axis == 0 else
+                    sf.Frame.from_items(((labels[i], env.array([vals[i], vals[i] + 1000], 'int64')) for i in range(n)), index=('r0', 'r1'))))
+                it = src.iter_window_items(size=size, step=step, axis=axis, window_sized=window_sized, label_shift=label_shift,
+                        start_shift=start_shift, size_increment=size_increment)
+                if axis == 0:
+                    got = [[env.obs(l), env.obs(list(w.index.values)), env.obs(w.values.tolist())] for l, w in it]
+                    exp = [[labels[li], [labels[i] for i in pos], [[vals[i], vals[i] + 1000] for i in pos]]
+                           for li, pos in ref_windows(n, size, step, window_sized, label_shift, start_shift, size_increment)]
+                else:
+                    got = [[env.obs(l), env.obs(list(w.columns.values)), env.obs(w.values.tolist())] for l, w in it]
+                    exp = [[labels[li], [labels[i] for i in pos], ([[vals[i] for i in pos], [vals[i] + 1000 for i in pos]] if pos else [[], []])]
+                           for li, pos in ref_windows(n, size, step, window_sized, label_shift, start_shift, size_increment)]
+            return got, exp
+        # every input is concrete from here on: run the real code outside the tracer (fast)
+        got, exp = rt.untraced(run)
         return got, exp
     return Cond(f'window_{kind}_n{n}_size{size}_step{step}',
             [('window_sized', 'bool'), ('label_shift', 'int'), ('start_shift', 'int'), ('size_increment', 'int')], body,
-            ranges={'label_shift': (-3, 3), 'start_shift': (-3, 3), 'size_increment': (0, 1)},
+            ranges={'label_shift': (-R, R), 'start_shift': (-R, R), 'size_increment': (0, 1)},
             functions=['axis_window_items'],
-            bounds=f'{kind} of {n}; size = {size}, step = {step}; window_sized, label_shift in -3..3, start_shift in -3..3, size_increment in 0..1 symbolic',
-            route=f'{kind}.iter_window_items(...): (anchor label, window labels, window cells) for every window', tier=tier, timeout=240)
+            bounds=f'{kind} of {n}; size = {size}, step = {step}; window_sized, label_shift in -{R}..{R}, start_shift in -{R}..{R}, size_increment in 0..1 symbolic (split by value up front: they are loop bounds)',
+            route=f'{kind}.iter_window_items(...): (anchor label, window labels, window cells) for every window', tier=tier, timeout=240 if tier == 'quick' else 1200)
 
 
 for _size, _step in ((1, 1), (2, 1), (3, 2), (2, 3), (2, 0), (4, 1)):
@@ -96,7 +113,7 @@ _add(mk_window(4, 2, 2, 'frame1'))
 for _size in (1, 2, 3, 4, 5):
     for _step in (0, 1, 2, 3):
         for _kind in ('series', 'frame0', 'frame1'):
-            c = mk_window(5, _size, _step, _kind, tier='thorough')
+            c = mk_window(6, _size, _step, _kind, tier='thorough')
             if c.name not in CONDS:
                 _add(c)
 
@@ -111,13 +128,6 @@ def ref_groups(keys):
     return out
 
 
-def concretize(v, lo, hi):
-    for k in range(lo, hi + 1):
-        if v == k:
-            return k
-    raise AssertionError('out of range')
-
-
 def install_tape(env, kw, n):
     if env.model:
         env.nondet.install([kw[f'tape{i}'] for i in range(n)])
@@ -126,16 +136,22 @@ def install_tape(env, kw, n):
 def mk_series_group(n, tier='quick'):
     def body(env, **kw):
         sf = env.sf
-        install_tape(env, kw, n)
+        from vf import rt
         keys = [concretize(kw[f'k{i}'], 0, 2) for i in range(n)]
-        labels = [100 + i for i in range(n)]
-        s = sf.Series(env.array(keys, 'int64'), index=labels)
-        got = [[env.obs(g), env.obs(list(sub.index.values)), env.obs(sub.values.tolist())] for g, sub in s.iter_group_items()]
-        exp = [[k, [labels[i] for i in pos], [keys[i] for i in pos]] for k, pos in ref_groups(keys)]
-        ap = s.iter_group().apply(lambda x: len(x))
-        got.append([env.obs(list(ap.index.values)), env.obs(ap.values.tolist())])
-        exp.append([[k for k, _ in ref_groups(keys)], [len(p) for _, p in ref_groups(keys)]])
-        return got, exp
+        tape = [bool(kw[f'tape{i}']) for i in range(n)]
+
+        def run():
+            if env.model:
+                env.nondet.install(tape)
+            labels = [100 + i for i in range(n)]
+            s = sf.Series(env.array(keys, 'int64'), index=labels)
+            got = [[env.obs(g), env.obs(list(sub.index.values)), env.obs(sub.values.tolist())] for g, sub in s.iter_group_items()]
+            exp = [[k, [labels[i] for i in pos], [keys[i] for i in pos]] for k, pos in ref_groups(keys)]
+            ap = s.iter_group().apply(lambda x: len(x))
+            got.append([env.obs(list(ap.index.values)), env.obs(ap.values.tolist())])
+            exp.append([[k for k, _ in ref_groups(keys)], [len(p) for _, p in ref_groups(keys)]])
+            return got, exp
+        return rt.untraced(run)   # keys and tape are concrete from here on
     return Cond(f'series_group_n{n}', [(f'k{i}', 'int') for i in range(n)], body, tape=n, ranges={f'k{i}': (0, 2) for i in range(n)},
             functions=['Series._axis_group_items', 'array_to_groups_and_locations'],
             bounds=f'Series of {n} keys symbolic in 0..2 (one group ... all distinct); tie tape for non-stable sorts',
@@ -150,8 +166,16 @@ def mk_frame_group(n, layout, axis, key_as_list, tier='quick'):
     def body(env, **kw):
         sf = env.sf
         from static_frame.core.type_blocks import TypeBlocks
-        install_tape(env, kw, n)
+        from vf import rt
         keys = [concretize(kw[f'k{i}'], 0, 2) for i in range(n)]
+        tape = [bool(kw[f'tape{i}']) for i in range(n)]
+        return rt.untraced(lambda: run(env, keys, tape))
+
+    def run(env, keys, tape):
+        sf = env.sf
+        from static_frame.core.type_blocks import TypeBlocks
+        if env.model:
+            env.nondet.install(tape)
         if axis == 0:
             # n rows, 3 columns: payload, payload, key
             rows = [[1000 * (r + 1), 1000 * (r + 1) + 1, keys[r]] for r in range(n)]
@@ -171,7 +195,8 @@ def mk_frame_group(n, layout, axis, key_as_list, tier='quick'):
             f = sf.Frame(tb, index=['a', 'b', 'k'], columns=labels)
             it = f.iter_group_items(['k'] if key_as_list else 'k', axis=1)
             got = [[env.obs(g), env.obs(list(sub.index.values)), env.obs(list(sub.columns.values)), env.obs(sub.values.tolist())] for g, sub in it]
-            exp = [[([k] if key_as_list else k), ['a', 'b', 'k'], [labels[i] for i in pos], [[rows[r][i] for i in pos] for r in range(3)]] for k, pos in ref_groups(keys)]
+            # (a single-row list key on axis 1 labels its groups with the bare key value: library convention)
+            exp = [[k, ['a', 'b', 'k'], [labels[i] for i in pos], [[rows[r][i] for i in pos] for r in range(3)]] for k, pos in ref_groups(keys)]
         return got, exp
     return Cond(f'frame_group_axis{axis}_{"listkey" if key_as_list else "elemkey"}_n{n}_{layouts.name(layout)}', [(f'k{i}', 'int') for i in range(n)], body, tape=n,
             ranges={f'k{i}': (0, 2) for i in range(n)},
